@@ -4,6 +4,8 @@
 
 use crate::api::{self, Verdict};
 use crate::build::{lzma2_stream, Chunk, XzBlock, XzFile};
+#[allow(unused_imports)]
+use crate::build::Chunk as _ChunkAlias;
 use crate::coding::{Props, Sym};
 use crate::d_lzma::tlc_json_lines;
 use crate::report::{hash_of, hex, is_prefix, unhex, Report};
@@ -36,6 +38,10 @@ pub fn payload_lib() -> Vec<(Vec<u8>, Vec<u8>)> {
         Chunk::Lzma { class: 3, props: Some(Props { lc: 0, lp: 2, pb: 1 }), prog: prog2 },
         Chunk::Raw { reset: false, data: vec![9, 9] },
     ]);
+    v.push((s, o));
+    // 9: unpadded size needs a 3-byte varint (>= 16384)
+    let big: Vec<u8> = (0..20000usize).map(|i| (i * 7 % 256) as u8).collect();
+    let (s, o, _) = lzma2_stream(&[raw(&big)]);
     v.push((s, o));
     v
 }
@@ -82,12 +88,14 @@ pub fn build_file(c: &XzCase, orig_check: u8) -> Option<XzFile> {
     let mut f = XzFile { check: orig_check, ..Default::default() };
     for s in &c.shapes {
         let (p, o) = lib.get(s.pid - 1)?.clone();
+        let dict_prop = [22u8, 0, 40, 18][(s.pid + s.hsize / 4 + c.check as usize) % 4];
         f.blocks.push(XzBlock {
             payload: p,
             content: o,
             hsize: s.hsize,
             has_packed: s.has_p,
             has_unpacked: s.has_u,
+            filter_props: Some(vec![dict_prop]),
             ..Default::default()
         });
     }
@@ -124,8 +132,10 @@ pub fn build_file(c: &XzCase, orig_check: u8) -> Option<XzFile> {
         "bpad" => f.blocks[bi].bpad_pat = m.v as u8,
         "check" => f.blocks[bi].check_xor = 1,
         "fid" => f.blocks[bi].filter_id = Some(m.v as u64),
-        "nfilters" => f.blocks[bi].extra_filters = vec![(0x21, vec![22])],
+        // a legal chain of the format that lzma-rs does not support: delta filter, then LZMA2
+        "nfilters" => f.blocks[bi].extra_filters = vec![(0x03, vec![0])],
         "propsLen" => f.blocks[bi].filter_props = Some(vec![22; m.v as usize]),
+        // (the valid files already rotate the one-byte LZMA2 dictionary property)
         "pdecl" => f.blocks[bi].packed_decl = Some(m.v as u64),
         "udecl" => f.blocks[bi].unpacked_decl = Some(m.v as u64),
         "idxUnpadded" => f.idx_rec = Some((bi, 0, m.v as u64)),
@@ -197,7 +207,8 @@ pub fn check_case(c: &XzCase, prop: &str, rep: &mut Report) -> bool {
             if c.accept {
                 vs.push(format!("rejected a well-formed supported file: {}", o.msg));
             } else if !is_prefix(&o.out, &content) {
-                vs.push("bytes written before the error are not a prefix of the blocks' contents".into());
+                // not fixed by C03/C06/C18 (they speak about success): shape tier
+                rep.drift("bytes written before the rejection are not a prefix of the blocks' contents".into(), json!({"mut": c.mutation}));
             }
         }
     }
@@ -288,6 +299,33 @@ pub fn replay_export(path: &str, prop: &str, seed: u64, limit: usize, rep: &mut 
 
 /// C06, input-level: every single-bit flip and every truncation of small files with CRC32/CRC64.
 /// Contract: Err, or Ok with output identical to the original.
+/// C03 extras that the bounded model cannot hold: 130 blocks (2-byte record count in the index),
+/// a 2 MiB block (4-byte varints), every check type.
+pub fn big_valid(prop: &str, rep: &mut Report) {
+    let lib = payload_lib();
+    for check in [0u8, 1, 4] {
+        let mut f = XzFile { check, ..Default::default() };
+        for i in 0..130usize {
+            let (p, o) = lib[[0usize, 2, 4, 6][i % 4]].clone();
+            f.blocks.push(XzBlock { payload: p, content: o, has_packed: i % 2 == 0, has_unpacked: i % 3 == 0, hsize: if i % 5 == 0 { 64 } else { 0 }, ..Default::default() });
+        }
+        // one block of 2 MiB + 1 bytes (unpacked size needs 4 varint bytes), built from max-size raw chunks
+        let data: Vec<u8> = (0..(1usize << 21) + 1).map(|i| (i % 251) as u8).collect();
+        let chunks: Vec<Chunk> = data.chunks(65536).enumerate().map(|(i, c)| Chunk::Raw { reset: i == 0, data: c.to_vec() }).collect();
+        let (s, o, _) = lzma2_stream(&chunks);
+        f.blocks.push(XzBlock { payload: s, content: o, has_packed: true, has_unpacked: true, ..Default::default() });
+        let lay = f.serialize();
+        let content = f.content();
+        let o = api::xz_bytes(&lay.bytes);
+        rep.eval(hash_of(&("big_valid", check)), true);
+        if o.verdict != Verdict::Ok || o.out != content {
+            rep.violation(prop, format!("131-block file with a 2 MiB block (check {}) rejected or mis-decoded: {:?} {}", check, o.verdict, o.msg), json!({"kind": "xzbig", "check": check}));
+        } else if check == 1 {
+            rep.sample(json!({"origin": "big_valid", "blocks": 131, "bytes": lay.bytes.len(), "check": check}));
+        }
+    }
+}
+
 pub fn flips(prop: &str, seed: u64, nfiles: usize, rep: &mut Report) {
     let lib = payload_lib();
     let mut rng = StdRng::seed_from_u64(seed ^ 0xf11b);
@@ -296,7 +334,7 @@ pub fn flips(prop: &str, seed: u64, nfiles: usize, rep: &mut Report) {
         let nb = 1 + fi % 3;
         let mut f = XzFile { check, ..Default::default() };
         for _ in 0..nb {
-            let (p, o) = lib[rng.gen_range(0..lib.len())].clone();
+            let (p, o) = lib[rng.gen_range(0..8)].clone(); // small payloads only: every bit is flipped
             f.blocks.push(XzBlock { payload: p, content: o, hsize: 0, has_packed: rng.gen(), has_unpacked: rng.gen(), ..Default::default() });
         }
         let lay = f.serialize();
